@@ -3,7 +3,7 @@
    Per citation: res (resource citation), year (-1 = None), myear4 (leading four digits of metadata.year as a number, -2 if none),
    exact / var (candidate edition keys), guess (key or ""), fs (raw full_span_start, -1 = None);
    eds: key -> <<start year, end year>> (-1 = open); today. *)
-EXTENDS Editions, Json, IOUtils
+EXTENDS Editions, Json, IOUtils, Hits
 Traces == JsonDeserialize(IOEnv.TRACE_FILE)
 NT == Len(Traces)
 VARIABLES tid, bucket
@@ -20,8 +20,9 @@ Own(cs, k) == ~(k > 1 /\ cs[k].cls = "FullCaseCitation" /\ cs[k-1].cls = "FullCa
                 /\ cs[k].raw_fss # -1 /\ cs[k].raw_fss = cs[k-1].raw_fss)
 Slim(c) == <<c.cls, c.s, c.e, c.guess, c.year>>
 
-Clauses == {"C04.noraise", "C18.yearrange", "C18.yeartext", "C18.guessmember", "C18.guesssingle",
-            "C18.guessneedsyear", "C18.guessonly", "C18.disambig"}
+ClauseSeq == <<"C04.noraise", "C18.yearrange", "C18.yeartext", "C18.guessmember", "C18.guesssingle", "C18.guessneedsyear", "C18.guessonly", "C18.disambig">>
+Clauses == {ClauseSeq[ci] : ci \in DOMAIN ClauseSeq}
+ASSUME PrintT(<<"CLAUSES", ToJson(ClauseSeq)>>)
 Holds(cl, t) ==
   LET tr == T(t)  cs == tr.def IN
   IF tr.raised # "" THEN cl # "C04.noraise"
@@ -44,7 +45,19 @@ Holds(cl, t) ==
 TInit == tid = 0 /\ bucket \in 0..(NB - 1)
 TNext == tid = 0 /\ (\E t \in {x \in 1..NT : x % NB = bucket} : tid' = t) /\ UNCHANGED bucket
 TSpec == TInit /\ [][TNext]_<<tid, bucket>>
-Judge == tid # 0 => \A cl \in Clauses : Holds(cl, tid) \/ PrintT(<<"FAIL", tid, cl>>)
+Exercised(cl, t) ==
+  LET tr == T(t)  cs == tr.def IN
+  IF cl = "C04.noraise" THEN TRUE
+  ELSE IF tr.raised # "" THEN FALSE
+  ELSE CASE cl \in {"C18.yearrange", "C18.yeartext"} -> \E k \in DOMAIN cs : cs[k].res /\ cs[k].year # -1
+    [] cl = "C18.guessmember" -> \E k \in DOMAIN cs : cs[k].res /\ cs[k].guess # ""
+    [] cl = "C18.guesssingle" -> \E k \in DOMAIN cs : cs[k].res /\ Cardinality(Cands(cs[k])) = 1
+    [] cl = "C18.guessneedsyear" -> \E k \in DOMAIN cs : cs[k].res /\ Cardinality(Cands(cs[k])) > 1 /\ cs[k].guess # ""
+    [] cl = "C18.guessonly" -> \E k \in DOMAIN cs : cs[k].res /\ Cardinality(Cands(cs[k])) > 1 /\ cs[k].guess # "" /\ cs[k].year # -1 /\ Own(cs, k)
+    [] cl = "C18.disambig" -> \E k \in DOMAIN cs : cs[k].res /\ cs[k].guess = ""      \* something is removed
+    [] OTHER -> FALSE
+Judge == tid # 0 => (/\ \A cl \in Clauses : Holds(cl, tid) \/ PrintT(<<"FAIL", tid, cl>>)
+   /\ PrintT(<<"HIT", tid, Mask([ci \in DOMAIN ClauseSeq |-> Exercised(ClauseSeq[ci], tid)])>>))
 (* conformance: the model's Guess on the recorded candidates and year gives the recorded guess *)
 Conform == (tid # 0 /\ T(tid).raised = "") =>
    (\A k \in DOMAIN T(tid).def : LET c == T(tid).def[k]  tr == T(tid) IN
